@@ -31,7 +31,7 @@ ASSUMPTIONS = ["kernel flock and the fake S3's conditional PUT are the 'real mut
                "interleavings inside a single storage call or inside pyarrow are not controlled"]
 REQUIRED_LABELS = {"quick": ["stale-base-race", "clock:manual", "topo:shared", "world:s3cas"], "thorough": ["stale-base-race"]}
 
-OPKINDS = ["append", "multi", "delete", "expire", "delete_snapshot", "set_prop"]
+OPKINDS = ["append", "multi", "delete", "replace", "expire", "delete_snapshot", "set_prop"]
 
 
 COARSE_MS = 1_790_000_000_000
@@ -78,6 +78,18 @@ def make_op_fn(t, op, base, actor_idx):
         def f():
             with t.new_transaction() as tx:
                 tx.delete_files([p])
+                return tx.commit()
+
+        return f
+    if kind == "replace":
+        # delete one file and append its replacement in ONE transaction
+        p = files[op.get("which", 0) % len(files)]
+        rrows = [{"k": 3000 + actor_idx, "s": f"r{actor_idx}"}]
+
+        def f():
+            with t.new_transaction() as tx:
+                tx.delete_files([p])
+                tx.append_data(rrows)
                 return tx.commit()
 
         return f
@@ -131,6 +143,13 @@ def expected_after(prev, op, base, actor_idx):
         for f in kept:
             rows.update(canon_row(r) for r in cur["rows_by_file"][f])
         exp["new"] = {"kept": kept, "n_new": 0, "rows": rows}
+    elif kind == "replace":
+        p = base_files[op.get("which", 0) % len(base_files)]
+        kept = cur_files - {p}
+        rows = collections.Counter()
+        for f in kept:
+            rows.update(canon_row(r) for r in cur["rows_by_file"][f])
+        exp["new"] = {"kept": kept, "n_new": 1, "rows": rows + rows_multiset([{"k": 3000 + actor_idx, "s": f"r{actor_idx}"}])}
     elif kind == "expire":
         cutoff = base_snaps[op.get("which", 0) % len(base_snaps)]["ts"] + 1
         exp["ids"] = [s["id"] for s in prev["snapshots"] if s["ts"] >= cutoff or s["id"] == prev["current_id"]]
@@ -296,6 +315,7 @@ FIXED = [
     {"world": "local", "topology": "shared", "clock": "coarse", "nprior": 2, "ops": [{"op": "set_prop"}, {"op": "expire", "which": 0}]},
     {"world": "s3cas", "topology": "shared", "clock": "real", "nprior": 1, "ops": [{"op": "delete", "which": 0}, {"op": "append"}]},
 ]
+FIXED.insert(2, {"world": "local", "topology": "separate", "clock": "real", "nprior": 2, "ops": [{"op": "replace", "which": 0}, {"op": "append"}]})
 
 
 def run_enum(task):
